@@ -25,17 +25,28 @@ func TestMain(m *testing.M) {
 type Comp struct {
 	Name string  `json:"name"`
 	UID  *string `json:"uid"`
+	// SubUID: a sub-component (VALARM; STANDARD inside VTIMEZONE) carrying a UID of its own, as RFC 9074 alarms do.
+	// The rules of RFC 4791 section 4.1 speak of the calendar's components, i.e. the top level.
+	SubUID *string `json:"sub_uid,omitempty"`
 }
 
 type Case struct {
 	Method bool   `json:"method"`
 	Comps  []Comp `json:"comps"`
+	// MethodText: the text of the METHOD property when Method is set ("" is still a METHOD property); nil = PUBLISH
+	MethodText *string `json:"method_text,omitempty"`
 }
 
 func (c Case) key() string {
 	var b strings.Builder
 	fmt.Fprintf(&b, "%v", c.Method)
+	if c.MethodText != nil {
+		fmt.Fprintf(&b, "(%q)", *c.MethodText)
+	}
 	for _, k := range c.Comps {
+		if k.SubUID != nil {
+			fmt.Fprintf(&b, "|sub=%q", *k.SubUID)
+		}
 		if k.UID == nil {
 			fmt.Fprintf(&b, "|%s", k.Name)
 		} else {
@@ -50,7 +61,13 @@ func build(c Case) *ical.Calendar {
 	cal.Props.SetText(ical.PropVersion, "2.0")
 	cal.Props.SetText(ical.PropProductID, "-//verif//EN")
 	if c.Method {
-		cal.Props.SetText(ical.PropMethod, "PUBLISH")
+		if c.MethodText != nil {
+			p := ical.NewProp(ical.PropMethod)
+			p.Value = *c.MethodText
+			cal.Props.Set(p)
+		} else {
+			cal.Props.SetText(ical.PropMethod, "PUBLISH")
+		}
 	}
 	for _, k := range c.Comps {
 		comp := ical.NewComponent(k.Name)
@@ -58,6 +75,14 @@ func build(c Case) *ical.Calendar {
 			comp.Props.SetText(ical.PropUID, *k.UID)
 		}
 		comp.Props.SetText(ical.PropSummary, "s")
+		if k.SubUID != nil {
+			sub := ical.NewComponent("VALARM")
+			if k.Name == "VTIMEZONE" {
+				sub = ical.NewComponent("STANDARD")
+			}
+			sub.Props.SetText(ical.PropUID, *k.SubUID)
+			comp.Children = append(comp.Children, sub)
+		}
 		cal.Children = append(cal.Children, comp)
 	}
 	return cal
@@ -186,7 +211,7 @@ func TestEnumerate(t *testing.T) {
 			}
 			for _, nm := range names {
 				for _, u := range uids {
-					cur[i] = Comp{nm, u}
+					cur[i] = Comp{Name: nm, UID: u}
 					walk(i + 1)
 				}
 			}
@@ -207,7 +232,7 @@ func TestRandom(t *testing.T) {
 	)
 	vev.Rapid(t, rec, 0, vev.N(4000, 400000), func(rt *rapid.T) {
 		var c Case
-		c.Method = rapid.IntRange(0, 9).Draw(rt, "method") == 0
+		c.Method = rapid.IntRange(0, 6).Draw(rt, "method") == 0
 		n := rapid.IntRange(0, 12).Draw(rt, "n")
 		// bias toward one dominant name/uid so that accepted calendars with many components are common
 		domName := nameGen.Draw(rt, "domName")
@@ -229,7 +254,15 @@ func TestRandom(t *testing.T) {
 				u := domUID
 				k.UID = &u
 			}
+			if rapid.IntRange(0, 7).Draw(rt, "sub?") == 0 {
+				u := uidGen.Draw(rt, "subuid")
+				k.SubUID = &u
+			}
 			c.Comps = append(c.Comps, k)
+		}
+		if c.Method && rapid.IntRange(0, 2).Draw(rt, "mtext?") == 0 {
+			mt := rapid.SampledFrom([]string{"", ",REQUEST", ",", " ", "REQUEST"}).Draw(rt, "mtext")
+			c.MethodText = &mt
 		}
 		record(c)
 		if o := evaluate(c); !o.OK() && !rec.Known(o.Sig) {
